@@ -246,6 +246,9 @@ class Machine:
         kind = rng.choices(kinds, [w[k] for k in kinds])[0]
         # right after a call that died half-way: prefer a state change followed by an observation
         # (faults placed next to state changes find more than uniformly scattered ones)
+        pops = getattr(self, "pending_ops", [])
+        if pops and not self.force_observe:
+            return copy.deepcopy(pops.pop(0))
         pend = getattr(self, "pending", [])
         if pend and not self.force_observe:
             kind = pend.pop(0)
@@ -356,9 +359,20 @@ class Machine:
             lays.append("far")
         if self.last is not None:
             lays += ["reuse", "reuse", "same_again"]
+        if self.dim > 1:
+            lays.append("diag")
         lay = rng.choice(lays)
         op["layout"] = lay
-        if lay == "unstructured":
+        op["via"] = rng.choice(["call", "call", "wrapper"])
+        if lay == "diag":
+            # k points given as equally long coordinate arrays (x_i, y_i): the very same
+            # arrays are a valid structured grid definition - used for the next call
+            k = rng.randint(2, min(len(a) for a in self.axes))
+            op["sel"] = [sorted(rng.sample(range(len(a)), k)) for a in self.axes]
+            nxt = dict(op, layout="structured", via=rng.choice(["wrapper", "wrapper", "call"]),
+                       seed={"mode": "keep"})
+            self.pending_ops = [nxt]
+        elif lay == "unstructured":
             op["idx"] = rng.sample(range(self.npool), rng.randint(1, self.npool))
         elif lay == "buffer":
             # the caller keeps ONE float64 (dim, n) array and overwrites it in place between
@@ -436,6 +450,12 @@ class Machine:
             axes = [np.array([a[j] for j in s]) for a, s in zip(self.axes, sel)]
             pts = cm.grid_points(axes)
             return axes, "structured", pts, tuple(len(a) for a in axes), ("s", sel)
+        if lay == "diag":
+            sel = [[j for j in s if 0 <= j < len(a)] for s, a in zip(op["sel"], self.axes)]
+            if len(sel) != self.dim or len({len(s) for s in sel}) != 1 or not sel[0]:
+                raise Inapplicable("bad selection")
+            pts = np.array([[a[j] for j in s] for a, s in zip(self.axes, sel)], dtype=np.double)
+            return pts.copy(), "unstructured", pts, (pts.shape[1],), ("c", pts.tolist())
         if lay == "at_cond":
             pts = np.array(self.spec["cond"]["pos"], dtype=np.double)
             return pts.copy(), "unstructured", pts, (pts.shape[1],), ("c", pts.tolist())
@@ -524,7 +544,10 @@ class Machine:
                 else:
                     p = [a.copy() for a in pos] if isinstance(pos, list) else pos.copy()
                     try:
-                        res = s.cs(p, mesh_type=mesh_type, **kw)
+                        if op.get("via") == "wrapper":
+                            res = getattr(s.cs, mesh_type)(p, **kw)
+                        else:
+                            res = s.cs(p, mesh_type=mesh_type, **kw)
                     finally:
                         # the caller reuses its arrays: stored positions must be copies
                         for a in (p if isinstance(p, list) else [p]):
